@@ -512,12 +512,12 @@ impl Router {
                 if let Some(cursor) = retransmissions.get(&request.filter_idx) {
                     request.cursor = *cursor;
                     // reset the group cursor
+                    // the group is gone if this was its last member
                     if let Some(group_name) = &request.group {
                         // TODO: Test this more
-                        self.shared_subscriptions
-                            .get_mut(group_name)
-                            .expect("group must exists")
-                            .cursor = *cursor;
+                        if let Some(group) = self.shared_subscriptions.get_mut(group_name) {
+                            group.cursor = *cursor;
+                        }
                     }
                 }
             }
